@@ -229,14 +229,18 @@ def install():
                 continue        # class Token(str) uses str.__new__
             setattr(mod, g, fn)
     # regex: shim module + wrap the compiled patterns stored on the grammar classes
-    for m in ("decoder", "parser", "encoder", "grammar"):
-        if hasattr(mods[m], "re"):
-            mods[m].re = rx.RE
-    for cls in vars(mods["grammar"]).values():
-        if isinstance(cls, type):
-            for k, v in list(vars(cls).items()):
-                if isinstance(v, _re.Pattern):
-                    setattr(cls, k, rx.sym_compile(v))
+    # (every module: a change under test may start using ``re`` anywhere; patterns compiled at import time sit in
+    # module globals or class attributes as real Pattern objects and are wrapped)
+    for m, mod in mods.items():
+        if getattr(mod, "re", None) is _re:
+            mod.re = rx.RE
+        for k, v in list(vars(mod).items()):
+            if isinstance(v, _re.Pattern):
+                setattr(mod, k, rx.sym_compile(v))
+            elif isinstance(v, type) and getattr(v, "__module__", "") == mod.__name__:
+                for k2, v2 in list(vars(v).items()):
+                    if isinstance(v2, _re.Pattern):
+                        setattr(v, k2, rx.sym_compile(v2))
     # datetime
     dec, enc = mods["decoder"], mods["encoder"]
     if hasattr(dec, "datetime"):
